@@ -70,9 +70,10 @@ BUILT_REASON = "check under construction in this revision (design in DESIGN.md s
 
 def main():
     checks, na = [], []
+    tracked = set(subprocess.run(["git", "-C", ROOT, "ls-files", "harness"], stdout=subprocess.PIPE, text=True).stdout.split())
     for pid in sorted(P):
         m = P[pid]
-        if os.path.exists(os.path.join(ROOT, "harness", pid + ".cpp")):
+        if "harness/%s.cpp" % pid in tracked:   # only harnesses that are committed are claimed
             checks.append({
                 "property_id": pid,
                 "quick_cmd": "./check %s --tier quick" % pid,
